@@ -86,7 +86,16 @@ def run(C, R):
         E = Engine(F, inline_filter=lambda ci, callee: not (
             callee['path'].startswith('intrusive_pairing_heap::') or callee['path'].startswith('intrusive_double_linked_list::'))
             or callee['path'].endswith(('::deref', '::deref_mut')) or callee.get('name') in ('is_root',)
-            or callee.get('name') not in SCHEMA_FNS, inline_queue_helpers=True)
+            or callee.get('name') not in SCHEMA_FNS
+            # (a provided / implemented method of a private helper trait is a helper, whatever it is called)
+            or bool(callee.get('in_trait')) or (bool(callee.get('impl_trait')) and not (callee.get('impl_trait') or '').startswith('std::')),
+            inline_queue_helpers=True)
+
+        # the schemas name the parameters by role; the source may call them anything
+        E.param_names = {'meld': ['left', 'right'], 'maybe_meld': ['left', 'right'], 'add_child': ['parent', 'child'],
+                         'unlink_prev': ['node'], 'merge_children': ['first_child'], 'last_child': ['first_child'],
+                         'safe_lesser': ['a', 'b'], 'add_front': ['self', 'node'], 'remove': ['self', 'node'],
+                         'insert': ['self', 'node']}
 
         def one(path_suffix):
             r = [f for p, f in F.fns.items() if p.endswith(path_suffix)]
@@ -102,6 +111,52 @@ def run(C, R):
             h = var(E, path, I(SELF + ('head',)))
             t = var(E, path, I(SELF + ('tail',)))
             return h is not None and t is not None and h != t
+
+        VOCAB_OK = ('std::convert::', '<T as std::convert::', 'std::option::Option', '<std::option::Option', 'std::cmp::',
+                    'std::mem::forget', 'std::mem::replace', 'std::mem::take', 'std::mem::swap', 'std::ops::Fn', 'std::ptr::',
+                    'std::panicking', 'std::rt::', 'std::fmt', 'std::ops::Try', 'std::ops::FromResidual', 'std::ops::Deref',
+                    'std::ops::DerefMut', 'std::intrinsics', 'std::hint', 'std::result::Result', '<std::result::Result',
+                    'std::clone::', 'std::marker::', 'std::num::', 'std::ops::ControlFlow', '<std::ptr::', 'std::cell::')
+        outside = {}
+
+        def foreign_vocab(fn):
+            """std functions outside the vocabulary of link surgery that the function (or what it inlines) calls -
+            iterator adaptors, collections, ...: the schema comparison cannot follow an algorithm written with them"""
+            if fn['path'] not in outside:
+                found = set()
+                for q in C.cg(cfg).reachable_from([fn['path']]):
+                    g = F.fn(q)
+                    if g is None or not q.lstrip('<').startswith(('intrusive_', 'std::ptr::NonNull<intrusive_')) and ' as intrusive_' not in q:
+                        continue
+                    for b_ in g['blocks']:
+                        t_ = b_['term']
+                        if b_['cleanup'] or t_['k'] != 'call' or 'fn' not in t_['func']:
+                            continue
+                        ci_ = t_['func']['fn']
+                        r_ = ci_.get('resolved') or {}
+                        if (r_.get('krate') or ci_['krate']) == 'futures_intrusive':
+                            continue
+                        pth = r_.get('path') or ci_['path']
+                        if not pth.startswith(VOCAB_OK):
+                            found.add(pth.split('::<')[0][:80])
+                outside[fn['path']] = sorted(found)
+            return outside[fn['path']]
+
+        _fail0 = R.fail
+
+        def _fail_or_cannot_judge(rule, key, msg, loc=None, extra=None):
+            # (installed for this module only: a schema deviation in a function written with foreign vocabulary is
+            # "cannot judge this algorithm", not a violation)
+            fp = key[0] if key else None
+            g = F.fn(fp) if fp else None
+            fv = foreign_vocab(g) if g is not None and rule.startswith('C20.R') and rule != 'C20.R5' else []
+            if fv:
+                R.cannot_judge('%s does not agree with the canonical schema (%s), and it is written with %s - '
+                               'outside the vocabulary the link-surgery schemas can follow; this algorithm is not judged'
+                               % (fp, key[1] if len(key) > 1 else '', ', '.join(fv[:4])))
+                return
+            _fail0(rule, key, msg, loc, extra)
+        R.fail = _fail_or_cannot_judge
 
         def report(rule, fn, path, ok, what, detail=None):
             if ok:
